@@ -279,10 +279,6 @@ class WebSocket:
             protocol is required for `reason`.
         """
 
-        # NOTE(kgriffs): Do this first to be sure we clean things up
-        #   in the case that we are going to raise an error next.
-        await self._buffered_receiver.stop()
-
         if code is None:
             code = WSCloseCode.NORMAL
         elif not isinstance(code, int):
@@ -291,6 +287,12 @@ class WebSocket:
             raise ValueError('Invalid close code. The value must be >= 1000')
         elif 1015 <= code <= 1999 or 1004 <= code <= 1006:
             raise ValueError('Invalid close code. Only unreserved codes may be used.')
+
+        # NOTE: Only stop the receive pump once the code is known to be valid.
+        #   If the app handles the ValueError and keeps using the connection,
+        #   receiving must keep working; an unhandled error ends up closing
+        #   the connection (and stopping the pump) via the error handlers.
+        await self._buffered_receiver.stop()
 
         # NOTE(kgriffs): Only do this after we validate the code, to avoid
         #   masking errors.
